@@ -5,6 +5,7 @@
 //! assume: the relations LDK's debug_assert!s state between the results of the scan (a delayed output of ours only on our own commitment; an HTLC resolved with no spend pending only on our commitment or after the funding spend is final; no timeout event and no preimage spend of an offered HTLC on a revoked commitment; a timeout event only for an HTLC we can time out) hold: they are kept as obligations and discharged from these preconditions
 //! trusted: R15 (deep slice): get_claimable_balances: the body of the loop over the HTLCs of our current commitment while no funding spend is confirmed, verbatim as a function of one HTLC and the five running totals (the macro holder_commitment_htlcs! that yields the HTLCs is dropped); R11 for its panic!
 //! assume: the running totals plus one HTLC amount fit u64 (amounts are bounded by the channel value; the source adds unchecked)
+//! trusted: R15 (deep slice): get_htlc_balance: the predicate of the `.any(..)` in the guard of the MaturingOutput arm of the scan, verbatim as a function of one input of the maturing transaction (Txid/TxIn/descriptor skeletons)
 //! trusted: env: enum Balance, BalanceSource, HolderCommitmentTransactionBalance extracted; HTLCOutputInCommitment skeleton {offered, amount_msat, cltv_expiry, payment_hash}; HTLCSource skeleton with the three variants; payment_preimages is a stub map whose get() answers from a ghost map
 //! trusted: assume_specification for core::cmp::max / core::cmp::min (std definitions): present in every unit so that a change that introduces them is verified instead of being rejected by the tool
 use vstd::prelude::*;
@@ -98,6 +99,28 @@ impl Monitor {
     if let Some((conf_thresh, _)) = htlc_spend_pending {
 //@end
 }
+// ---- the scan of pending events: which maturing output of ours counts as the claim of THIS HTLC output ----
+impl vstd::std_specs::cmp::PartialEqSpecImpl for Txid { open spec fn obeys_eq_spec() -> bool { true } open spec fn eq_spec(&self, other: &Txid) -> bool { *self == *other } }
+impl PartialEq for Txid { #[verifier::external_body] fn eq(&self, o: &Txid) -> (r: bool) { unimplemented!() } }
+impl Clone for Txid { #[verifier::external_body] fn clone(&self) -> (r: Txid) ensures r == *self { unimplemented!() } }
+impl Copy for Txid {}
+pub struct PrevOutPoint { pub txid: Txid, pub vout: u32 }
+pub struct TxInput { pub previous_output: PrevOutPoint }
+pub struct DescOutPoint { pub txid: Txid, pub index: u16 }
+pub struct DelayedDescriptor { pub outpoint: DescOutPoint }
+//@extract lightning/src/chain/channelmonitor.rs :: impl ChannelMonitorImpl :: fn get_htlc_balance
+//@slice R15
+    .any(|(input_idx, inp)| $p:seq )) .unwrap_or(false) => { debug_assert!(holder_delayed_output_pending.is_none());
+//@with
+    fn maturing_output_claims_this_htlc(input_idx: usize, inp: &TxInput, confirmed_txid: Option<Txid>, htlc_commitment_tx_output_idx: u32, descriptor: &DelayedDescriptor) -> bool { $p }
+//@ret r
+//@ensures P C07 a-maturing-delayed-output-of-ours-counts-as-this-htlcs-claim-only-if-its-transaction-spends-this-very-output-of-the-confirmed-commitment-at-the-input-matching-the-output
+    r == (confirmed_txid == Some(inp.previous_output.txid) && inp.previous_output.vout == htlc_commitment_tx_output_idx && descriptor.outpoint.index as usize == input_idx),
+//@mutant any_transaction_spending_an_output_with_that_index_counts
+    Some(inp.previous_output.txid) == confirmed_txid &&
+//@with
+    confirmed_txid.is_some() &&
+//@end
 // ---- get_claimable_balances while the channel is open: every HTLC of our current commitment is accounted for exactly once ----
 pub open spec fn rounded(htlc: &HTLCOutputInCommitment) -> u64 { if htlc.transaction_output_index is None { htlc.amount_msat } else { (htlc.amount_msat % 1000) as u64 } }
 pub struct Tally { pub claimable_inbound_htlc_value_sat: u64, pub outbound_payment_htlc_rounded_msat: u64, pub outbound_forwarded_htlc_rounded_msat: u64, pub inbound_claiming_htlc_rounded_msat: u64, pub inbound_htlc_rounded_msat: u64 }
